@@ -170,6 +170,11 @@ def run(ctx):
             # blocks adopted without validation (bulk download) are dropped again by the roll-back that follows any
             # rejected delivery: while some are pending, "no trace" cannot be read off the digest
             pending_unvalidated = unvalidated_pending[0]          # tracked by the harness, not read from the node
+            # the delivering peer may be the one the chain manager has an open block request with (ChainManager.step sets this
+            # flag on the peer it asks and clears it when that peer answers with an empty inventory): what an unsolicited block
+            # from it is put through does not depend on that
+            rn.peers[0].waiting_for_inventory = (di % 3 == 1)
+            res.count("delivering_peer_has_open_request" if di % 3 == 1 else "delivering_peer_idle")
             before = rn.digest()
             frames_before = [list(rn.outbox_kinds(p)) for p in rn.peers]
             r = rn.deliver_block(0, blk, irt)
